@@ -220,6 +220,19 @@ func main() {
 					if id := rootIdent(sel.X); id != nil && isGlobal(id) {
 						u.unknown = true // method call on a global
 					}
+					// a call into the file system: shared state outside the process, a scheduling
+					// point under the pseudo-variable <fs> (never counted as a data race)
+					if id, ok := sel.X.(*ast.Ident); ok {
+						if pn, ok := info.Uses[id].(*types.PkgName); ok {
+							if ip := pn.Imported().Path(); ip == "os" || ip == "io/ioutil" {
+								u.any = true
+								if u.vars == nil {
+									u.vars = map[string]bool{}
+								}
+								u.vars["<fs>"] = true
+							}
+						}
+					}
 				}
 				for _, a := range c.Args {
 					if id, ok := a.(*ast.Ident); ok && isGlobal(id) {
